@@ -13,6 +13,14 @@ CHECKS = {
         note="z3 decides integer polynomial identities mod r; trusted: primality of r, the "
              "symbolic dispatch of the vendored dependency copy (validated differentially each run), specs in py/spec",
         tech="symbolic execution of the real Rust code on a term-recording field + SMT (z3, Int mod r)"),
+    "C09": dict(
+        cat="other", ref="§5 C09",
+        text="Bounded solver verdict per width: gates extracted from the real component_range_bits / "
+             "component_range, row semantics from the real range/arithmetic widgets; z3 shows that no assignment "
+             "of the witness and of ANY internal accumulator satisfies the rows with value >= 2^w.",
+        note="integral-domain rewriting (r prime), Schwartz-Zippel over the separation challenge, "
+             "bounded-quotient LIA encoding; satisfiability direction only at the honest witness of 2^w-1",
+        tech="constraint extraction from the real composer + symbolic row semantics + SMT (z3 LIA/NIA)"),
 }
 
 NOT_APPLICABLE = {
